@@ -154,6 +154,30 @@ def validate_file(ctx, path, nt, timeout):
     return rejections
 
 
+def corrupt(path, how):
+    """Development self-test of the binding: damage one logged field / drop one event of the 2nd trace."""
+    lines = open(path).read().splitlines()
+    resets = [n for n, l in enumerate(lines) if '"k":"reset"' in l]
+    lo = resets[1] if len(resets) > 1 else 0
+    hi = resets[2] if len(resets) > 2 else len(lines)
+    for n in range(lo, hi):
+        e = json.loads(lines[n])
+        if how == "corrupt-ts" and e.get("k") == "cas" and e.get("ok") and e["out"]["e"][e["i"] - 1]["st"] != "ABSENT":
+            e["out"]["e"][e["i"] - 1]["ts"] += 1
+            lines[n] = json.dumps(e)
+            break
+        if how == "drop-event" and e.get("k") == "cas" and e.get("ok") and n > lo + 3:
+            del lines[n]
+            break
+        if how == "corrupt-sample" and e.get("k") == "sample":
+            e["st"] = "LEAVING" if e["st"] != "LEAVING" else "ACTIVE"
+            lines[n] = json.dumps(e)
+            break
+    else:
+        raise verif.Inconclusive("selftest: nothing to corrupt")
+    open(path, "w").write("\n".join(lines) + "\n")
+
+
 def record_and_validate(ctx, test, env, timeout_go=900, timeout_tlc=900, label=""):
     """Record traces from the real code, validate them; a rejection is re-recorded once (same seed):
     only a rejection that repeats is a disagreement (DESIGN 1.4)."""
@@ -176,6 +200,14 @@ def record_and_validate(ctx, test, env, timeout_go=900, timeout_tlc=900, label="
 
     res, files = record("a")
     cases = int(res.get("cases", 0))
+    selftest = os.environ.get("VERIF_LC_SELFTEST")   # development: corrupt-ts | drop-event | corrupt-sample
+    if selftest:
+        nt = sorted(files)[-1] if 2 not in files else 2
+        corrupt(files[nt], selftest)
+        rej = validate_file(ctx, files[nt], nt, timeout_tlc)
+        ctx.inconclusive_note("SELFTEST %s: %s" % (selftest, "rejected as expected: " + signature(rej[0][4], rej[0][1], rej[0][3])
+                                                    if rej else "NOT rejected - the binding is broken"))
+        return
     rej = []
     before = ctx.traces
     for nt, p in files.items():
